@@ -213,6 +213,9 @@ VARIANTS = [
     V( 'limit-ending-unconditional', AUTO, "if ending is None or source.sent + limit < ending:\n ending = source.sent + limit", "if True:\n                    ending	= source.sent + limit", fires=[ 'R-LIMIT' ] ),
     V( 'limit-grows', AUTO, "if ending is None or source.sent + limit < ending:", "if ending is None or source.sent + limit > ending:", fires=[ 'R-LIMIT' ] ),
     V( 'limit-off-by-one', AUTO, "limited = ending is not None and source.sent >= ending", "limited			= ending is not None and source.sent > ending", fires=[ 'R-LIMIT' ] ),
+    V( 'limit-spelled-other-way', AUTO, "limited = ending is not None and source.sent >= ending", "limited			= not ( ending is None or ending > source.sent )", silent=[ 'R-LIMIT' ] ),
+    V( 'limit-input-if-statement-form', AUTO, "inp = None if limited else source.peek()", "inp			= source.peek() if limited is False else None", silent=[ 'R-LIMIT' ] ),
+    V( 'limit-input-peeked-anyway', AUTO, "inp = None if limited else source.peek()", "inp			= source.peek() if limited or True else None", fires=[ 'R-LIMIT' ] ),
     V( 'limit-not-forwarded', AUTO, "source=source, machine=self, path=self.context( path ), data=data, ending=ending )", "source=source, machine=self, path=self.context( path ), data=data )", fires=[ 'R-LIMIT' ] ),
     V( 'limit-min-idiom', AUTO, "if ending is None or source.sent + limit < ending:\n ending = source.sent + limit", "if ending is None or source.sent + limit <= ending:\n                    ending	= source.sent + limit", silent=[ 'R-LIMIT' ] ),
     V( 'repeat-double-increment', AUTO, "self.cycle += 1 # On last cycle, sub-machine may be terminated at any terminal state", "self.cycle	       += 1\n            self.cycle	       += 1", fires=[ 'R-REPEAT' ] ),
@@ -445,6 +448,8 @@ VARIANTS = [
     V( 'hpace-announce-then-next', HFILES, "yield (f,n,cur),(ts,None)\n continue", "yield (f,n,cur),(ts,None)", fires=[ 'H-PACE' ] ),
     V( 'hpace-due-test-inverted', HFILES, "adv = cur + ( lookahead or 0.0 )\n if ts > adv:\n #log.info", "adv		= cur + ( lookahead or 0.0 )\n                    if ts < adv:\n                        #log.info", fires=[ 'H-PACE' ] ),
     V( 'hpace-no-reread-clock', HFILES, "if ts is not None and ts > adv:\n cur = self.advance()\n adv = cur + ( lookahead or 0.0 )\n if ts > adv:", "if ts is not None and ts > adv:\n                    if ts > adv:", fires=[ 'H-PACE' ] ),
+    V( 'hload-accept-spelled-as-not-before', HFILES, "inorder = self._ts is None or ts >= self._ts", "inorder		= not ( self._ts is not None and ts < self._ts )", silent=[ 'H-LOAD' ] ),
+    V( 'hload-release-spelled-other-way', HFILES, "if self._seen and ( self._ts is None or ts > self._ts ):", "if self._seen and ( self._ts is None or self._ts < ts ):", silent=[ 'H-LOAD' ] ),
     V( 'hload-accept-strictly-greater', HFILES, "inorder = self._ts is None or ts >= self._ts", "inorder		= self._ts is None or ts > self._ts", fires=[ 'H-LOAD' ] ),
     V( 'hload-drain-with-lookahead', HFILES, "while len( self.future ) and self.future[0][0] <= cur:", "while len( self.future ) and self.future[0][0] <= cur + ( self.lookahead or 0.0 ):", fires=[ 'H-LOAD' ] ),
     V( 'hload-pop-newest', HFILES, "ts,regs = self.future.popleft()", "ts,regs		= self.future.pop()", fires=[ 'H-LOAD' ] ),
